@@ -443,7 +443,7 @@ func writeEvidence(oc *checkOutcome, seed int, wall float64) {
 	trusted := []string{
 		"A1 go/ssa translation, Go compiler/runtime, SMT solvers (raced: z3-new 5.1.0, cvc5 1.0, z3 4.8.12), the acv VC generator",
 		"A2 GOARCH=amd64: int is a 64-bit bit-vector (no mathematical integers anywhere)",
-		"A3 every slice/string has 0 <= len <= cap <= 2^47",
+		"A3 every existing slice/string has 0 <= len <= cap <= 2^40 (no object over 1 TiB); make/append panic above 2^48",
 		"A4 calls without contract/model: results and memory reachable from pointer/non-byte-slice arguments are havocked, nothing else changes",
 		"A4b callees without contract/model do not write through []byte arguments unless their name is on the write list (Read*, Zeroize*, Put*, Encode/Decode, copy-like, Seal/Open, Sum, Unmarshal)",
 		"A8 functions are verified as sequential programs (no interleavings)",
